@@ -190,7 +190,7 @@ inline Result solve(const Inst &I, long maxSweeps = 200000) {
         }
         if (sweep + 1 == nextPolish || maxch < 1e-15L * scale) {
             if (try_polish()) { R.sweeps = sweep + 1; return R; }
-            nextPolish = nextPolish * 3;
+            if (nextPolish < (1L << 60)) nextPolish = nextPolish * 3;
             if (maxch < 1e-16L * scale) break;
         }
     }
